@@ -102,306 +102,6 @@ func c10proj(c *Ctx) {
 
 // ---------------------------------------------------------------- R1c
 
-func c10fieldStores(c *Ctx, p *pkgT, reg *projReg) {
-	info := p.TypesInfo
-	// per-call functions: the constructors, plus package functions called from the NewTransform closure
-	// (statically), transitively.
-	nt := c.P.Method("proj", "SR", "NewTransform")
-	perCall := map[*types.Func]bool{}
-	for _, ctor := range reg.ctors {
-		perCall[ctor] = true
-	}
-	var visit func(n ast.Node)
-	visit = func(n ast.Node) {
-		ast.Inspect(n, func(m ast.Node) bool {
-			if call, ok := m.(*ast.CallExpr); ok {
-				if f := callee(info, call); f != nil && c.P.DeclPkg(f) == p && !perCall[f] && f != nt {
-					// Parse / addDef run once per definition, not per call; Transformers dispatches to the constructors
-					perCall[f] = true
-					visit(c.P.Decl(f).Body)
-				}
-			}
-			return true
-		})
-	}
-	for _, lit := range funcLits(c.P.Decl(nt).Body) {
-		visit(lit.Body)
-	}
-	for _, ctor := range reg.ctors {
-		visit(c.P.Decl(ctor).Body)
-	}
-	// parsing is reached only through Parse("WGS84"), which returns the registered *SR without parsing
-	parse := c.P.Func("proj", "Parse")
-	parseOnly := map[*types.Func]bool{}
-	if parse != nil {
-		var pv func(f *types.Func)
-		pv = func(f *types.Func) {
-			if parseOnly[f] || c.P.Decl(f) == nil {
-				return
-			}
-			parseOnly[f] = true
-			ast.Inspect(c.P.Decl(f).Body, func(m ast.Node) bool {
-				if call, ok := m.(*ast.CallExpr); ok {
-					if g := callee(info, call); g != nil && c.P.DeclPkg(g) == p {
-						pv(g)
-					}
-				}
-				return true
-			})
-		}
-		pv(parse)
-	}
-	// fields written anywhere on the per-call path (for stability)
-	type storeSite struct {
-		fn    *types.Func
-		as    ast.Stmt
-		lhs   ast.Expr
-		rhs   ast.Expr
-		field *types.Var
-		recvT *types.Named
-		tok   token.Token
-	}
-	var sites []storeSite
-	structField := func(e ast.Expr) (*types.Var, *types.Named) {
-		sel, ok := unparen(e).(*ast.SelectorExpr)
-		if !ok {
-			return nil, nil
-		}
-		s := info.Selections[sel]
-		if s == nil {
-			return nil, nil
-		}
-		v, ok := s.Obj().(*types.Var)
-		if !ok || !v.IsField() {
-			return nil, nil
-		}
-		// only through pointers (persistent objects): *SR, *datum
-		if _, isPtr := info.TypeOf(sel.X).Underlying().(*types.Pointer); !isPtr {
-			return nil, nil
-		}
-		return v, named(s.Recv())
-	}
-	var fns []*types.Func
-	for f := range perCall {
-		if parseOnly[f] && f != parse {
-			continue
-		}
-		if f == parse {
-			continue
-		}
-		fns = append(fns, f)
-	}
-	sort.Slice(fns, func(i, j int) bool { return c.P.PosLess(c.P.Decl(fns[i]).Pos(), c.P.Decl(fns[j]).Pos()) })
-	for _, f := range fns {
-		fd := c.P.Decl(f)
-		// stores inside nested closures belong to the closures (checked by R1a/R1b)
-		inspectNoLits(fd.Body, func(n ast.Node) bool {
-			switch x := n.(type) {
-			case *ast.AssignStmt:
-				for i, l := range x.Lhs {
-					if fv, rt := structField(l); fv != nil {
-						var rhs ast.Expr
-						if len(x.Rhs) == len(x.Lhs) {
-							rhs = x.Rhs[i]
-						}
-						sites = append(sites, storeSite{f, x, l, rhs, fv, rt, x.Tok})
-					}
-				}
-			case *ast.IncDecStmt:
-				if fv, rt := structField(x.X); fv != nil {
-					sites = append(sites, storeSite{f, x, x.X, nil, fv, rt, x.Tok})
-				}
-			}
-			return true
-		})
-	}
-	// fields written by a function and by the package functions it calls: a constructor only
-	// rewrites its own spatial reference, so stability is judged per constructor chain
-	calls := map[*types.Func][]*types.Func{}
-	for _, f := range fns {
-		ast.Inspect(c.P.Decl(f).Body, func(m ast.Node) bool {
-			if call, ok := m.(*ast.CallExpr); ok {
-				if g := callee(info, call); g != nil && c.P.DeclPkg(g) == p && g != f {
-					calls[f] = append(calls[f], g)
-				}
-			}
-			return true
-		})
-	}
-	writtenBy := func(f *types.Func) map[*types.Var]bool {
-		out := map[*types.Var]bool{}
-		seen := map[*types.Func]bool{}
-		var rec func(g *types.Func)
-		rec = func(g *types.Func) {
-			if seen[g] {
-				return
-			}
-			seen[g] = true
-			for _, s := range sites {
-				if s.fn == g {
-					out[s.field] = true
-				}
-			}
-			for _, h := range calls[g] {
-				rec(h)
-			}
-		}
-		rec(f)
-		// callers that write before delegating (UTM → TMerc)
-		for caller, cs := range calls {
-			for _, h := range cs {
-				if h == f {
-					for _, s := range sites {
-						if s.fn == caller {
-							out[s.field] = true
-						}
-					}
-				}
-			}
-		}
-		return out
-	}
-	counts := map[string]int{}
-	for _, s := range sites {
-		fd := c.P.Decl(s.fn)
-		written := writtenBy(s.fn)
-		cons := fmt.Sprintf("%s#c-store(%s.%s)", c.P.FuncName(s.fn), s.recvT.Obj().Name(), s.field.Name())
-		counts[cons]++
-		if counts[cons] > 1 {
-			cons = fmt.Sprintf("%s#%d", cons, counts[cons])
-		}
-		// (a) lazy init: enclosing if tests IsNaN(lhs) / lhs == nil / "" / 0
-		lazy := false
-		for _, anc := range enclosing(fd.Body, s.as) {
-			is, ok := anc.(*ast.IfStmt)
-			if !ok || !containsNode(is.Body, s.as) {
-				continue
-			}
-			for _, at := range conjuncts(is.Cond, true) {
-				if !at.Truth {
-					continue
-				}
-				e := unparen(at.E)
-				if call, ok := e.(*ast.CallExpr); ok && isFuncIn(callee(info, call), "math", "IsNaN") && len(call.Args) == 1 && sameExpr(info, call.Args[0], s.lhs) {
-					lazy = true
-				}
-				if b, ok := e.(*ast.BinaryExpr); ok && b.Op == token.EQL && sameExpr(info, b.X, s.lhs) {
-					if isNilConst(info, b.Y) {
-						lazy = true
-					} else if v := constOf(info, b.Y); v != nil && (v.String() == "0" || v.String() == `""`) {
-						lazy = true
-					}
-				}
-			}
-		}
-		// value must not depend on mutable per-call state
-		stableRHS := func(rhs ast.Expr) (bool, string) {
-			if rhs == nil {
-				return false, "the new value is computed from the old one"
-			}
-			why := ""
-			sc := newFnScope(info, fd.Body)
-			var check func(e ast.Node, depth int)
-			check = func(e ast.Node, depth int) {
-				ast.Inspect(e, func(m ast.Node) bool {
-					switch y := m.(type) {
-					case *ast.SelectorExpr:
-						if fv, _ := structField(y); fv != nil {
-							if fv == s.field && sameExpr(info, y, s.lhs) {
-								why = "the new value depends on the field's own previous value"
-							} else if written[fv] && !precededByStableStore(c, info, fd, s.as, y) {
-								why = "the new value reads " + fv.Name() + ", which is itself rewritten on the per-call path"
-							}
-						}
-					case *ast.Ident:
-						if o := objOf(info, y); o != nil && depth < 4 {
-							if _, isVar := o.(*types.Var); isVar {
-								for _, d := range sc.defs[o] {
-									if d != nil {
-										check(d, depth+1)
-									}
-								}
-							}
-						}
-					}
-					return why == ""
-				})
-			}
-			check(rhs, 0)
-			return why == "", why
-		}
-		switch {
-		case s.tok != token.ASSIGN && s.tok != token.DEFINE:
-			// op-assign / ++: read-modify-write; acceptable only as a save/restore temporary (none today)
-			c.Bad("C10.R1", cons, s.as.Pos(), "`%s` updates %s.%s from its own previous value on the per-call path: every call changes what the next call computes", src(s.as), s.recvT.Obj().Name(), s.field.Name())
-		case lazy:
-			if ok, why := stableRHS(s.rhs); ok {
-				c.OK("C10.R1", cons, s.as.Pos(), "lazy initialisation guarded by an unset test of the same field")
-			} else {
-				c.Bad("C10.R1", cons, s.as.Pos(), "lazy initialisation of %s, but %s", s.field.Name(), why)
-			}
-		case c10saveRestore(info, fd, s.as, s.lhs):
-			c.OK("C10.R1", cons, s.as.Pos(), "temporary overwrite, restored from a saved copy before every success return (paths that return an error skip the restore; such a datum fails on every later call as well)")
-		default:
-			if ok, why := stableRHS(s.rhs); ok {
-				c.OK("C10.R1", cons, s.as.Pos(), "normalising overwrite from constants and stable fields")
-			} else {
-				c.Bad("C10.R1", cons, s.as.Pos(), "`%s` is executed on every transformer call and is not idempotent: %s", src(s.as), why)
-			}
-		}
-	}
-	if len(sites) < 20 {
-		c.Unk("C10.R1", "proj#c-stores", token.NoPos, "only %d stores to spatial-reference fields found on the per-call path (expected the constructors' default fills)", len(sites))
-	}
-}
-
-// precededByStableStore: the read `sel` of a rewritten field happens after a store to the same
-// field earlier in this function (so it sees that store's value, not history).
-func precededByStableStore(c *Ctx, info *types.Info, fd *ast.FuncDecl, at ast.Stmt, sel *ast.SelectorExpr) bool {
-	found := false
-	ast.Inspect(fd.Body, func(n ast.Node) bool {
-		as, ok := n.(*ast.AssignStmt)
-		if !ok || as.Pos() >= at.Pos() {
-			return true
-		}
-		for _, l := range as.Lhs {
-			if sameExpr(info, l, sel) && (as.Tok == token.ASSIGN) {
-				found = true
-			}
-		}
-		return true
-	})
-	return found
-}
-
-// c10saveRestore: `lhs = …` is a temporary: the function saved `v := lhs` earlier and
-// assigns `lhs = v` later at top level of the body.
-func c10saveRestore(info *types.Info, fd *ast.FuncDecl, at ast.Stmt, lhs ast.Expr) bool {
-	sc := newFnScope(info, fd.Body)
-	// restore: a later top-level statement lhs = v where v's single def is lhs
-	for _, st := range fd.Body.List {
-		as, ok := st.(*ast.AssignStmt)
-		if !ok || len(as.Lhs) != len(as.Rhs) || as.Pos() <= at.Pos() && as != at {
-			continue
-		}
-		// single or parallel assignment: the position that stores into lhs
-		for i := range as.Lhs {
-			if !sameExpr(info, as.Lhs[i], lhs) {
-				continue
-			}
-			o := objOf(info, as.Rhs[i])
-			if o == nil {
-				continue
-			}
-			if d := sc.singleDef(o); d != nil && sameExpr(info, d, lhs) {
-				// the restore itself, or a store followed by it
-				return true
-			}
-		}
-	}
-	return false
-}
-
 // ---------------------------------------------------------------- R2
 
 func c10indexGuard(c *Ctx, p *pkgT) {
